@@ -2852,7 +2852,7 @@ func ruleR10_11(p *Program, r *Report) {
 		}
 	}
 	for _, c := range sites {
-		fn := siteFn[c]
+		_ = siteFn[c]
 		n++
 		key := shortFn(root) + "|" + lab.get("final flag of encodeBlock")
 		arg := c.Common().Args[1]
@@ -2883,12 +2883,14 @@ func ruleR10_11(p *Program, r *Report) {
 				for _, e := range x.Edges {
 					walk(e, d+1)
 				}
-				for _, br := range controlDeps(fn, x.Block()) {
-					walk(br.Cond, d+1)
-				}
+				// the conditions that choose between the phi's inputs: the tests ending its predecessor blocks (the
+				// operands of the && / || chain) - not the transitive control dependences, which inside a loop include
+				// the loop's own continuation test
 				for _, pr := range x.Block().Preds {
-					for _, br := range controlDeps(fn, pr) {
-						walk(br.Cond, d+1)
+					if len(pr.Instrs) > 0 {
+						if iff, ok := pr.Instrs[len(pr.Instrs)-1].(*ssa.If); ok {
+							walk(iff.Cond, d+1)
+						}
 					}
 				}
 			case *ssa.BinOp:
@@ -5449,107 +5451,153 @@ func ruleR09_4(p *Program, r *Report) {
 	r.Expect("R09.4", 1)
 	n := 0
 	for _, tr := range p.CompressorTypes() {
-		fn := tr.Ops["Accumulate"]
-		if fn == nil {
+		top := tr.Ops["Accumulate"]
+		if top == nil {
 			continue
 		}
-		recv := fn.Params[0]
-		fieldOfStore := func(in ssa.Instruction) string {
-			st, ok := in.(*ssa.Store)
-			if !ok {
-				return ""
-			}
-			root, sel := accessPath(st.Addr)
-			if root != ssa.Value(recv) || sel == "" {
-				return ""
-			}
-			return strings.SplitN(strings.TrimPrefix(sel, "."), ".", 2)[0]
+		// Accumulate itself, and the helpers it calls on its receiver (a slideWindow() step): in a helper the fields
+		// "stored outside the branch" include what Accumulate stores around the call
+		type unit struct {
+			fn   *ssa.Function
+			call ssa.CallInstruction
 		}
-		lab := newLabeler()
-		for _, b := range fn.Blocks {
-			if len(b.Instrs) == 0 {
-				continue
+		units := []unit{{top, nil}}
+		for _, c := range allCalls(top) {
+			if h := c.Common().StaticCallee(); h != nil && h.Blocks != nil && h.Pkg == top.Pkg && h.Signature.Recv() != nil && len(c.Common().Args) > 0 && c.Common().Args[0] == ssa.Value(top.Params[0]) {
+				units = append(units, unit{h, c})
 			}
-			iff, ok := b.Instrs[len(b.Instrs)-1].(*ssa.If)
-			if !ok {
-				continue
-			}
-			// fields the condition reads (through the && / || chain leading to this branch as well)
-			reads := map[string]bool{}
-			var walk func(v ssa.Value, d int)
-			walk = func(v ssa.Value, d int) {
-				if d > 6 || v == nil {
-					return
-				}
-				if root, sel, ok := fieldLoad(v); ok && root == ssa.Value(recv) {
-					reads[strings.SplitN(strings.TrimPrefix(sel, "."), ".", 2)[0]] = true
-					return
-				}
-				if in, ok := v.(ssa.Instruction); ok {
-					for _, op := range in.Operands(nil) {
-						if *op != nil {
-							walk(*op, d+1)
-						}
-					}
-				}
-			}
-			walk(iff.Cond, 0)
-			for _, f := range dominatingFacts(iff) {
-				walk(f.X, 0)
-				if f.Y != nil {
-					walk(f.Y, 0)
-				}
-			}
-			for si, side := range b.Succs {
-				if len(side.Preds) != 1 {
-					continue
-				}
-				inSide := func(x *ssa.BasicBlock) bool { return side.Dominates(x) }
-				storedIn, storedOut := map[string]bool{}, map[string]bool{}
-				for _, b2 := range fn.Blocks {
+		}
+		for _, u := range units {
+			fn := u.fn
+			recv := fn.Params[0]
+			outer := map[string]bool{}
+			if u.call != nil {
+				for _, b2 := range top.Blocks {
 					for _, in := range b2.Instrs {
-						var fs []string
-						if f := fieldOfStore(in); f != "" {
-							fs = append(fs, f)
+						if in == ssa.Instruction(u.call) {
+							continue
 						}
-						// a helper called on the same receiver stores what its effect summary says
+						if st, ok := in.(*ssa.Store); ok {
+							if root, sel := accessPath(st.Addr); root == ssa.Value(top.Params[0]) && sel != "" {
+								outer[strings.SplitN(strings.TrimPrefix(sel, "."), ".", 2)[0]] = true
+							}
+						}
 						if c, ok := in.(ssa.CallInstruction); ok {
-							if h := c.Common().StaticCallee(); h != nil && h.Blocks != nil && h.Pkg == fn.Pkg && len(c.Common().Args) > 0 && c.Common().Args[0] == ssa.Value(recv) {
+							if h := c.Common().StaticCallee(); h != nil && h.Blocks != nil && h.Pkg == top.Pkg && len(c.Common().Args) > 0 && c.Common().Args[0] == ssa.Value(top.Params[0]) {
 								for _, sel := range p.Effects().ParamWrites(h, 0) {
-									if seg := strings.SplitN(strings.TrimPrefix(sel, "."), ".", 2)[0]; seg != "" && !strings.ContainsAny(seg, "[^~") {
-										fs = append(fs, seg)
-									} else if i := strings.IndexAny(seg, "[^~"); i > 0 {
-										fs = append(fs, seg[:i])
+									seg := strings.SplitN(strings.TrimPrefix(sel, "."), ".", 2)[0]
+									if i := strings.IndexAny(seg, "[^~"); i >= 0 {
+										seg = seg[:i]
+									}
+									if seg != "" {
+										outer[seg] = true
 									}
 								}
 							}
 						}
-						for _, f := range fs {
-							if inSide(b2) {
-								storedIn[f] = true
-							} else {
-								storedOut[f] = true
+					}
+				}
+			}
+			fieldOfStore := func(in ssa.Instruction) string {
+				st, ok := in.(*ssa.Store)
+				if !ok {
+					return ""
+				}
+				root, sel := accessPath(st.Addr)
+				if root != ssa.Value(recv) || sel == "" {
+					return ""
+				}
+				return strings.SplitN(strings.TrimPrefix(sel, "."), ".", 2)[0]
+			}
+			lab := newLabeler()
+			for _, b := range fn.Blocks {
+				if len(b.Instrs) == 0 {
+					continue
+				}
+				iff, ok := b.Instrs[len(b.Instrs)-1].(*ssa.If)
+				if !ok {
+					continue
+				}
+				// fields the condition reads (through the && / || chain leading to this branch as well)
+				reads := map[string]bool{}
+				var walk func(v ssa.Value, d int)
+				walk = func(v ssa.Value, d int) {
+					if d > 6 || v == nil {
+						return
+					}
+					if root, sel, ok := fieldLoad(v); ok && root == ssa.Value(recv) {
+						reads[strings.SplitN(strings.TrimPrefix(sel, "."), ".", 2)[0]] = true
+						return
+					}
+					if in, ok := v.(ssa.Instruction); ok {
+						for _, op := range in.Operands(nil) {
+							if *op != nil {
+								walk(*op, d+1)
 							}
 						}
 					}
 				}
-				if len(storedIn) == 0 {
-					continue // this side changes nothing (an early return, the buffer-full report)
-				}
-				n++
-				var clash []string
-				for f := range reads {
-					if storedOut[f] {
-						clash = append(clash, f)
+				walk(iff.Cond, 0)
+				for _, f := range dominatingFacts(iff) {
+					walk(f.X, 0)
+					if f.Y != nil {
+						walk(f.Y, 0)
 					}
 				}
-				sort.Strings(clash)
-				why := ""
-				if len(clash) > 0 {
-					why = "the branch that changes ." + strings.Join(sortedKeys(storedIn), ", .") + " is decided on ." + strings.Join(clash, ", .") + ", which Accumulate advances on every call: the change happens at a stream position that depends on how the data was split over Write calls"
+				for si, side := range b.Succs {
+					if len(side.Preds) != 1 {
+						continue
+					}
+					inSide := func(x *ssa.BasicBlock) bool { return side.Dominates(x) }
+					storedIn, storedOut := map[string]bool{}, map[string]bool{}
+					for f := range outer {
+						storedOut[f] = true
+					}
+					for _, b2 := range fn.Blocks {
+						for _, in := range b2.Instrs {
+							var fs []string
+							if f := fieldOfStore(in); f != "" {
+								fs = append(fs, f)
+							}
+							// a helper called on the same receiver stores what its effect summary says
+							if c, ok := in.(ssa.CallInstruction); ok {
+								if h := c.Common().StaticCallee(); h != nil && h.Blocks != nil && h.Pkg == fn.Pkg && len(c.Common().Args) > 0 && c.Common().Args[0] == ssa.Value(recv) {
+									for _, sel := range p.Effects().ParamWrites(h, 0) {
+										if seg := strings.SplitN(strings.TrimPrefix(sel, "."), ".", 2)[0]; seg != "" && !strings.ContainsAny(seg, "[^~") {
+											fs = append(fs, seg)
+										} else if i := strings.IndexAny(seg, "[^~"); i > 0 {
+											fs = append(fs, seg[:i])
+										}
+									}
+								}
+							}
+							for _, f := range fs {
+								if inSide(b2) {
+									storedIn[f] = true
+								} else {
+									storedOut[f] = true
+								}
+							}
+						}
+					}
+					if len(storedIn) == 0 {
+						continue // this side changes nothing (an early return, the buffer-full report)
+					}
+					n++
+					var clash []string
+					for f := range reads {
+						if storedOut[f] {
+							clash = append(clash, f)
+						}
+					}
+					sort.Strings(clash)
+					why := ""
+					if len(clash) > 0 {
+						why = "the branch that changes ." + strings.Join(sortedKeys(storedIn), ", .") + " is decided on ." + strings.Join(clash, ", .") + ", which Accumulate advances on every call: the change happens at a stream position that depends on how the data was split over Write calls"
+					}
+					_ = si
+					r.Check(why == "", "R09.4", shortFn(fn)+"|"+lab.get("state change"), p.InstrPos(iff), "a state change in Accumulate is decided on fields that do not move with the Write partition (reads ."+strings.Join(sortedKeys(reads), ", .")+")", why)
 				}
-				_ = si
-				r.Check(why == "", "R09.4", shortFn(fn)+"|"+lab.get("state change"), p.InstrPos(iff), "a state change in Accumulate is decided on fields that do not move with the Write partition (reads ."+strings.Join(sortedKeys(reads), ", .")+")", why)
 			}
 		}
 	}
@@ -5569,11 +5617,28 @@ func ruleR14_8(p *Program, r *Report) {
 	r.Expect("R14.8", 8)
 	n := 0
 	for _, tr := range p.WriterTypes() {
+		// the three operations, and every other method of the Writer type that reaches the destination and reports an
+		// error (writeHeader, writeBytes ...)
+		var fns []*ssa.Function
+		seenFn := map[*ssa.Function]bool{}
 		for _, opn := range []string{"Write", "Flush", "Close"} {
-			fn := tr.Ops[opn]
-			if fn == nil {
+			if fn := tr.Ops[opn]; fn != nil && !seenFn[fn] {
+				seenFn[fn] = true
+				fns = append(fns, fn)
+			}
+		}
+		for _, g := range p.Funcs() {
+			if seenFn[g] || g.Signature.Recv() == nil || derefNamed(g.Signature.Recv().Type()) != tr.Named || !p.DstSet()[g] {
 				continue
 			}
+			res := g.Signature.Results()
+			if res.Len() == 0 || !isErrorType(res.At(res.Len()-1).Type()) {
+				continue
+			}
+			seenFn[g] = true
+			fns = append(fns, g)
+		}
+		for _, fn := range fns {
 			recv := fn.Params[0]
 			lab := newLabeler()
 			for _, c := range allCalls(fn) {
@@ -6657,6 +6722,8 @@ func ruleR04_15(p *Program, r *Report) {
 					var edges []ssa.Value
 					if phi, ok := bound.(*ssa.Phi); ok {
 						edges = phi.Edges
+					} else if args, ok := minCallArgs(bound); ok {
+						edges = args // min(room, len(input)) through the builtin or a private two-way minimum
 					} else {
 						edges = []ssa.Value{bound}
 					}
@@ -6690,4 +6757,187 @@ func ruleR04_15(p *Program, r *Report) {
 func isConstVal(v ssa.Value, k int64) bool {
 	c, ok := constInt(v)
 	return ok && c == k
+}
+
+// ---------- R07.7: variable indexes into the container readers' fixed buffers are bounded ----------
+
+func init() {
+	extend("C07", Rule{ID: "R07.7", Configs: "all", Run: ruleR07_7},
+		"(R07.7) in the gzip and zlib readers every variable index into a fixed-size array field of the receiver (the 512-byte header buffer) is dominated by a comparison that bounds it below the array's length: a header string without terminator ends in ErrHeader, not in an index panic - corruption ends in an error.")
+}
+
+func ruleR07_7(p *Program, r *Report) {
+	r.Expect("R07.7", 1)
+	n := 0
+	for _, fn := range p.Funcs() {
+		if !readerPkg(fn) || fn.Signature.Recv() == nil || len(fn.Params) == 0 {
+			continue
+		}
+		if rel := fn.Pkg.Pkg.Path(); !strings.HasSuffix(rel, "/gzip") && !strings.HasSuffix(rel, "/zlib") {
+			continue
+		}
+		recv := fn.Params[0]
+		lab := newLabeler()
+		for _, b := range fn.Blocks {
+			for _, in := range b.Instrs {
+				ia, ok := in.(*ssa.IndexAddr)
+				if !ok {
+					continue
+				}
+				if _, isK := constInt(ia.Index); isK {
+					continue
+				}
+				root, sel := accessPath(ia.X)
+				if root != ssa.Value(recv) || sel == "" {
+					continue
+				}
+				arr, isArr := derefArray(ia.X.Type())
+				if !isArr {
+					continue
+				}
+				n++
+				ub, okB := upperBoundOf(ia.Index, ia)
+				why := ""
+				if !okB {
+					why = "the index is not bounded by a dominating comparison with a constant"
+				} else if ub >= arr.Len() {
+					why = "the index can be " + itoa(int(ub)) + " while " + sel + " has " + itoa(int(arr.Len())) + " elements: an unterminated header string runs off the buffer and panics"
+				}
+				r.Check(why == "", "R07.7", shortFn(fn)+"|"+lab.get("index into "+sel), p.InstrPos(ia), "a variable index into the fixed buffer "+sel+" stays below its length", why)
+			}
+		}
+	}
+	if n == 0 {
+		r.Undecided("R07.7", "sites", "-", "a container reader indexes its header buffer with a variable", "none found")
+	}
+}
+
+// ---------- R02.21 / R13.6: the dynamic set-up rebuilds both lookup tables on every success path ----------
+
+func init() {
+	const text = "every success path of the dynamic-block set-up passes a builder call on each of the two lookup tables the fixed set-up installs (a method called on the receiver's table field): a table that is not rebuilt - because the header declares no distance code, say - is the table of the previous block or of the previous stream, and a length symbol in such a block decodes against it."
+	extend("C02", Rule{ID: "R02.21", Configs: "all", Run: ruleR02_21}, "(R02.21) "+text)
+	extend("C13", Rule{ID: "R13.6", Configs: "all", Run: ruleR02_21}, "(R13.6) = R02.21.")
+}
+
+func ruleR02_21(p *Program, r *Report) {
+	id := "R02.21"
+	if r.Prop == "C13" {
+		id = "R13.6"
+	}
+	r.Expect(id, 2)
+	st := p.Method(flateRel, "inflate", "setupStaticHeader")
+	dyn := p.Method(flateRel, "inflate", "setupDynamicHeader")
+	if st == nil || dyn == nil {
+		r.Undecided(id, "anchors", "-", "inflate.setupStaticHeader and setupDynamicHeader exist", "not found")
+		return
+	}
+	// the table fields: what the fixed set-up installs
+	tables := map[string]bool{}
+	for _, b := range st.Blocks {
+		for _, in := range b.Instrs {
+			if s, ok := in.(*ssa.Store); ok {
+				root, sel := accessPath(s.Addr)
+				if root == ssa.Value(st.Params[0]) && sel != "" && isAggregate(s.Val.Type()) {
+					tables["."+strings.SplitN(strings.TrimPrefix(sel, "."), ".", 2)[0]] = true
+				}
+			}
+		}
+	}
+	if len(tables) < 2 {
+		r.Undecided(id, shortFn(st)+"|tables", p.Pos(st.Pos()), "the fixed set-up installs two lookup tables", itoa(len(tables))+" found")
+		return
+	}
+	recv := dyn.Params[0]
+	succ := func(in ssa.Instruction) bool {
+		ret, ok := in.(*ssa.Return)
+		if !ok {
+			return false
+		}
+		e := returnErr(ret)
+		return e == nil || p.mayBeNil(dyn, e, ret)
+	}
+	for _, tsel := range sortedKeys(tables) {
+		builds := func(in ssa.Instruction) bool {
+			c, ok := in.(ssa.CallInstruction)
+			if !ok || len(c.Common().Args) == 0 {
+				return false
+			}
+			if h := c.Common().StaticCallee(); h == nil || h.Signature.Recv() == nil {
+				return false
+			}
+			root, sel := accessPath(c.Common().Args[0])
+			return root == ssa.Value(recv) && sel == tsel
+		}
+		open, hit, path := PathQuery{Target: succ, Barrier: builds}.Find(dyn)
+		why := ""
+		if open {
+			why = "the success return at " + p.InstrPos(hit) + " is reachable (blocks " + fmtInts(path) + ") without a builder call on " + tsel + ": the block is decoded with the table an earlier block or stream left there"
+		}
+		r.Check(!open, id, shortFn(dyn)+"|"+tsel, p.Pos(dyn.Pos()), "the dynamic set-up rebuilds "+tsel+" on every success path", why)
+	}
+}
+
+func init() {
+	extend("C18", Rule{ID: "R18.20", Configs: "asm", Run: ruleR18_20},
+		"(R18.20) in the assembly decode loop every memory read through the match-source pointer (output cursor minus distance) is reachable from the pointer's computation only through the look-back check; a branch to a copy routine placed in front of the check (the distance-1 broadcast, say) copies from in front of the output buffer for a stream whose first symbol is a match.")
+	extend("C03", Rule{ID: "R03.17", Configs: "asm", Run: ruleR18_20}, "(R03.17) = R18.20.")
+	extend("C18", Rule{ID: "R18.21", Configs: "asm", Run: ruleR18_21},
+		"(R18.21) in the vector token encoders the lengths compared with the fast-path limit (VPCMPGTD ... JNZ long_codes) are the complete per-lane sum: the compared register has not already been folded into another register by a vector add before the compare.")
+	extend("C01", Rule{ID: "R01.17", Configs: "asm", Run: ruleR18_21}, "(R01.17) = R18.21.")
+}
+
+// minCallArgs recognises v = min(a, b): the builtin, or a call of a call-free two-parameter function each of whose
+// returns hands back one parameter under a dominating comparison that makes it the smaller (or equal) one.
+func minCallArgs(v ssa.Value) ([]ssa.Value, bool) {
+	c, ok := stripConv(v).(*ssa.Call)
+	if !ok {
+		return nil, false
+	}
+	com := c.Common()
+	if b, ok := com.Value.(*ssa.Builtin); ok && b.Name() == "min" && len(com.Args) == 2 {
+		return com.Args, true
+	}
+	h := com.StaticCallee()
+	if h == nil || h.Blocks == nil || len(h.Params) != 2 || len(com.Args) != 2 || len(allCalls(h)) != 0 {
+		return nil, false
+	}
+	p0, p1 := ssa.Value(h.Params[0]), ssa.Value(h.Params[1])
+	nret := 0
+	for _, b := range h.Blocks {
+		for _, in := range b.Instrs {
+			ret, ok := in.(*ssa.Return)
+			if !ok {
+				continue
+			}
+			if len(ret.Results) != 1 {
+				return nil, false
+			}
+			res := ret.Results[0]
+			if res != p0 && res != p1 {
+				return nil, false
+			}
+			other := p1
+			if res == p1 {
+				other = p0
+			}
+			smaller := false
+			for _, f := range dominatingFacts(ret) {
+				if f.Y == nil {
+					continue
+				}
+				switch {
+				case f.X == res && f.Y == other && (f.Op == token.LSS || f.Op == token.LEQ):
+					smaller = true
+				case f.X == other && f.Y == res && (f.Op == token.GTR || f.Op == token.GEQ):
+					smaller = true
+				}
+			}
+			if !smaller {
+				return nil, false
+			}
+			nret++
+		}
+	}
+	return com.Args, nret == 2
 }
